@@ -6,7 +6,7 @@ import numpy as np
 
 from ..common import Violation, Skip, guard, parse, extract, render, same_meaning, show, Ref, Invalid
 from ..harness import Part
-from .. import gen, gates
+from .. import gen, gates, refexec
 from ..model import empty_prog, is_int
 
 PROPERTY = "C06"
@@ -305,8 +305,124 @@ def two_level(case):
     return {"nontrivial": s1[2] >= 2 or s1[0] >= 1 or len(e1) >= 2, "classes": ["n:%d" % n], "key": repr(case), "sample": {"n": n, "first_slice": list(s1), "triples_checked": count}}
 
 
+# ------------------------------------------------------------------------------ pyGSTi circuits
+
+
+def pygsti_circuits(case):
+    """The pyGSTi consumer, on whole executable programs: every gate the emulator serialises
+    (macros expanded, lets substituted, aliases NOT filled in) is labelled with
+    pygsti_label_from_statement and the label - gate name, qubits, classical arguments - is
+    compared with the reference's execution of that subcircuit.  (Whole-circuit conversion,
+    pygsti_circuit_from_circuit, cannot be exercised here: the installed pyGSTi 0.10.2 is
+    outside the range the repository declares, <0.9.11, and refuses the list-valued line
+    labels of every CircuitLabel the visitor builds.)"""
+    from .. import gen_emul, refexec  # noqa: F401
+    from .c03 import ref_states  # noqa: F401
+    from jaqalpaq.core.algorithm import expand_macros, fill_in_let, expand_subcircuits
+    from jaqalpaq.core.algorithm.walkers import DiscoverSubcircuits
+
+    label = pygsti_label()
+    if label is None:
+        raise Skip()
+    prog, gate_seed = case["prog"], case["gate_seed"]
+    try:
+        ref = Ref(prog, {})
+        ref.check_static()
+        n = ref.reg_size()
+        tree = refexec.expand(ref)
+        acc = refexec.accept(tree)
+    except Invalid:
+        raise Skip()
+    if acc[0] != "ok" or refexec.static_errors(tree, n) or refexec.unrolled_size(tree) > 1500:
+        raise Skip()
+    _ok, nsub, sites = acc
+    visits = refexec.execute(tree, sites, lambda st, name, vals: st + [(name, vals)], lambda: [])
+    want = {}
+    for i, st in visits:
+        if isinstance(st, str):
+            raise Skip()  # ambiguous visit (zero-count loop around half a bracket, DESIGN 8.1)
+        want.setdefault(i, st)
+    text = render.to_text(prog)
+    nat = gates.make_gates(gate_seed)
+    st_, c = guard(parse, text, inject_pulses=nat, what="parse")
+    if st_ == "err":
+        raise Skip()
+    st_, e = guard(lambda: expand_macros(fill_in_let(expand_subcircuits(c))), what="expand")
+    if st_ == "err":
+        raise Skip()
+    st_, traces = guard(lambda: DiscoverSubcircuits().visit(e), what="DiscoverSubcircuits")
+    if st_ == "err" or len(traces) != nsub:
+        raise Skip()  # C12's business
+    ctx = f"--- program:\n{text}"
+    ngates = 0
+    from jaqalpaq.core.algorithm.walkers import TraceSerializer
+
+    for i, tr in enumerate(traces):
+        if i not in want:
+            continue
+        st_, seq = guard(lambda tr=tr: list(TraceSerializer(tr).visit(e)), what="TraceSerializer")
+        if st_ == "err":
+            raise Skip()
+        exp = [(name, vals) for name, vals in want[i] if name not in ("prepare_all", "measure_all")]
+        got = [g for g in seq if g.name not in ("prepare_all", "measure_all")]
+        if [g.name for g in got] != [name for name, _v in exp]:
+            raise Skip()  # gate order of the serializer is C03's business
+        for g, (name, vals) in zip(got, exp):
+            st_, lb = guard(label, g, what="pygsti_label_from_statement")
+            if st_ == "err":
+                raise Violation("pygsti-label", f"subcircuit {i}: {g}: {lb}\n{ctx}")
+            if refexec.is_idle(name):
+                if lb is not None:
+                    raise Violation("pygsti-label", f"subcircuit {i}: idle gate {g} has label {lb}\n{ctx}")
+                continue
+            qs = tuple(v[1] for v in vals if v[0] == "q")
+            cl = tuple(v[1] for v in vals if v[0] == "num")
+            ngates += 1
+            if lb is None or lb.name != "GJ" + name or tuple(lb.sslbls or ()) != qs or tuple(lb.args) != cl:
+                raise Violation(
+                    "pygsti-label",
+                    f"subcircuit {i}: {g} labelled {lb} = name {getattr(lb, 'name', None)} qubits {getattr(lb, 'sslbls', None)} args {getattr(lb, 'args', None)}; reference: qubits {qs}, arguments {cl}\n{ctx}",
+                )
+    # whole-circuit conversion: with the installed pyGSTi it cannot complete (see above), but a
+    # valid program with ONE register must not be refused by the visitor itself
+    conv = "not-tried"
+    if traces:
+        try:
+            from jaqalpaq.emulator.pygsti.circuit import pygsti_circuit_from_circuit
+
+            pygsti_circuit_from_circuit(e, trace=traces[0], durations={})
+            conv = "converted"
+        except AssertionError as ex:
+            import traceback
+
+            last = traceback.extract_tb(ex.__traceback__)[-1].filename
+            if "/pygsti/" in last and "jaqalpaq" not in last:
+                conv = "pygsti-version-refuses"
+            else:
+                raise Violation("pygsti-circuit-rejected", f"AssertionError in {last}\n{ctx}")
+        except Exception as ex:  # noqa: BLE001
+            raise Violation("pygsti-circuit-rejected", f"{type(ex).__name__}: {ex}\n{ctx}", where=type(ex).__name__)
+    feats = ["conversion:" + conv]
+    if prog["maps"]:
+        feats.append("aliases")
+    if n >= 4:
+        feats.append("qubits>=4")
+    return {"nontrivial": bool(prog["maps"]) and n >= 4 and ngates > 0, "classes": feats + ["subcircuits:%d" % min(nsub, 3)], "key": text, "sample": {"text": text}}
+
+
+def _pygsti_cases():
+    from .. import gen_emul
+
+    def mk(ch):
+        c = gen_emul.make_emulable(ch, max_reg=6, with_env=False)
+        return {"prog": c["prog"], "gate_seed": c["gate_seed"]}
+
+    return gen.cases(mk)
+
+
 def parts():
     return [
         Part("chains", gen.cases(_chain_case), chains, quick=1200, thorough=25000, min_nontrivial=0.3),
         Part("two-level", None, two_level, quick=0, thorough=0, exhaustive=_enum, shards=8),
+        Part("pygsti-labels", _pygsti_cases(), pygsti_circuits, quick=800, thorough=25000, min_nontrivial=0.1),
     ]
